@@ -88,6 +88,16 @@ func c05More() []*Scenario {
 				func(s *harness.SchedWorld) { s.RVisit("m", false, 0) },
 				func(s *harness.SchedWorld) { s.RVisitKeyOnly("m", true); s.RVisitKeyOnly("m", false) },
 			}},
+		{Name: "S11-slow-get", Desc: "reader [Get a, Get c: the values are not in memory (re-opened file)] || mutator [Set a (overwrite), Set c (overwrite), Delete e]: a lookup whose value read is slow must still answer from one version",
+			Setup: setup3(true),
+			Threads: []func(s *harness.SchedWorld){
+				func(s *harness.SchedWorld) { s.RGet("m", bs("a")); s.RGet("m", bs("c")) },
+				func(s *harness.SchedWorld) {
+					s.MutSet("m", bs("a"), 2, bs("a1"))
+					s.MutSet("m", bs("c"), 3, bs("c1"))
+					s.MutDelete("m", bs("e"))
+				},
+			}},
 		{Name: "S8-flushes", Desc: "mutator [Set b, Delete a] || flusher [Flush, Flush]",
 			Setup: setup3(false),
 			Threads: []func(s *harness.SchedWorld){
@@ -130,7 +140,7 @@ func c05Profiles(tier string) []Profile {
 	}
 	for _, sc := range c05More() {
 		b := 1
-		if sc.Name == "S9-value-vs-keyonly" {
+		if sc.Name == "S9-value-vs-keyonly" || sc.Name == "S11-slow-get" {
 			b = 2
 		}
 		ps = append(ps, sc.Profile(b))
